@@ -4,6 +4,7 @@
 #include <gnu_gama/ellipsoid.h>
 #include <gnu_gama/ellipsoids.h>
 #include <gnu_gama/local/bearing.h>
+#include <gnu_gama/e3.h>
 using namespace vh;
 int main(int argc, char** argv) {
   if (argc < 2) Tok::fail("usage: drv_geo file");
@@ -19,7 +20,21 @@ int main(int argc, char** argv) {
       el.blh2xyz(b, l, h, x, y, z);
       el.xyz2blh(x, y, z, b2, l2, h2);
       el.blh2xyz(b2, l2, h2, x2, y2, z2);
-      std::cout << "{\"t\":\"E\",\"id\":" << id << ",\"rc\":" << rc << ",\"name\":" << jstr(GNU_gama::gama_ellipsoid_id[id] ? GNU_gama::gama_ellipsoid_id[id] : "?") << ",\"a\":" << jnum(el.a()) << ",\"b\":" << jnum(el.b())
+      // R_3: rotation north-east-up -> xyz at (b, l); textbook columns, R'R = I, inverse(rotation(v)) = v
+      double rot = 0;
+      {
+        GNU_gama::R_3 R; R.set_rotation(b, l);
+        const double sb = std::sin(b), cb = std::cos(b), sl = std::sin(l), cl = std::cos(l);
+        const double T[3][3] = {{-sb * cl, -sl, cb * cl}, {-sb * sl, cl, cb * sl}, {cb, 0, sb}};       // columns: north, east, up
+        for (int j = 0; j < 3; j++) {
+          GNU_gama::E_3 u(j == 0, j == 1, j == 2), v, back;
+          R.rotation(u, v);
+          rot = std::max(rot, std::max(std::fabs(v.e1 - T[0][j]), std::max(std::fabs(v.e2 - T[1][j]), std::fabs(v.e3 - T[2][j]))));
+          R.inverse(v, back);
+          rot = std::max(rot, std::max(std::fabs(back.e1 - u.e1), std::max(std::fabs(back.e2 - u.e2), std::fabs(back.e3 - u.e3))));
+        }
+      }
+      std::cout << "{\"t\":\"E\",\"rot\":" << jnum(rot) << ",\"id\":" << id << ",\"rc\":" << rc << ",\"name\":" << jstr(GNU_gama::gama_ellipsoid_id[id] ? GNU_gama::gama_ellipsoid_id[id] : "?") << ",\"a\":" << jnum(el.a()) << ",\"b\":" << jnum(el.b())
                 << ",\"lat\":" << jnum(lat) << ",\"lon\":" << jnum(lon) << ",\"h\":" << jnum(h) << ",\"xyz\":[" << jnum(x) << "," << jnum(y) << "," << jnum(z) << "],\"blh\":["
                 << jnum(b2 * 180 / M_PI) << "," << jnum(l2 * 180 / M_PI) << "," << jnum(h2) << "],\"xyz2\":[" << jnum(x2) << "," << jnum(y2) << "," << jnum(z2) << "]}\n";
     } else if (w == "B") {
